@@ -1,19 +1,331 @@
 package main
 
 import (
+	"encoding/json"
+	"flag"
 	"fmt"
-	"golang.org/x/tools/go/packages"
+	"os"
+	"regexp"
+	"sort"
+	"strings"
+	"sync"
+	"time"
+
 	"golang.org/x/tools/go/ssa"
-	"golang.org/x/tools/go/ssa/ssautil"
 )
 
-func main() {
-	cfg := &packages.Config{Mode: packages.LoadAllSyntax, Dir: "/repo", BuildFlags: []string{"-tags=verif"}}
-	pkgs, err := packages.Load(cfg, "./pub")
-	if err != nil {
-		panic(err)
+type FuncReport struct {
+	Func        string   `json:"func"`
+	Pos         string   `json:"pos"`
+	Outside     []string `json:"outside_subset,omitempty"`
+	Uncontracted []string `json:"uncontracted_calls,omitempty"`
+	Assumed     []string `json:"assumed,omitempty"`
+	Notes       []string `json:"notes,omitempty"`
+	SpecErrors  []string `json:"spec_errors,omitempty"`
+	UnusedSites []string `json:"unused_sites,omitempty"`
+	NObl        int      `json:"obligations"`
+	TranslateS  float64  `json:"translate_s"`
+	SolveS      float64  `json:"solve_s"`
+}
+
+type Report struct {
+	Property    string        `json:"property"`
+	LoadS       float64       `json:"load_s"`
+	WallS       float64       `json:"wall_s"`
+	Functions   []*FuncReport `json:"functions"`
+	Obligations []*Obligation `json:"obligations"`
+	Errors      []string      `json:"errors,omitempty"`
+}
+
+func hasTag(c *Contract, prop string) bool {
+	chk := func(cls []Clause) bool {
+		for _, cl := range cls {
+			for _, t := range cl.Tags {
+				if t == prop {
+					return true
+				}
+			}
+		}
+		return false
 	}
-	prog, spkgs := ssautil.AllPackages(pkgs, ssa.NaiveForm|ssa.GlobalDebug)
-	prog.Build()
-	fmt.Println(len(spkgs))
+	if chk(c.Req) || chk(c.Ens) {
+		return true
+	}
+	if c.Dec != nil && chk([]Clause{*c.Dec}) {
+		return true
+	}
+	for _, l := range c.Loops {
+		if chk(l.Inv) {
+			return true
+		}
+		if l.Dec != nil && chk([]Clause{*l.Dec}) {
+			return true
+		}
+	}
+	for _, s := range c.Sites {
+		if chk(s.Asserts) {
+			return true
+		}
+	}
+	return false
+}
+
+func main() {
+	prop := flag.String("prop", "", "property id")
+	dir := flag.String("dir", "/repo", "repository root")
+	pkgsFlag := flag.String("pkgs", "./pub", "comma separated package patterns")
+	contracts := flag.String("contracts", "", "comma separated contract files (comment lines //@)")
+	specDir := flag.String("spec", "/verif/spec", "directory with *.spec prelude files")
+	out := flag.String("out", "", "output JSON file")
+	only := flag.String("funcs", "", "regexp restricting the functions verified")
+	timeout := flag.Int("timeout", 5, "per-obligation solver timeout (s)")
+	dump := flag.String("dump", "", "directory to dump SMT scripts into")
+	tags := flag.String("tags", "verif", "build tags")
+	jobs := flag.Int("j", 12, "parallel functions")
+	quant := flag.Bool("slicecontents", false, "model slice contents across append (quantified)")
+	info := flag.String("info", "", "print loops and call sites of functions matching this regexp and exit")
+	flag.Parse()
+	t0 := time.Now()
+	eng, err := loadEngine(*dir, strings.Split(*pkgsFlag, ","), *tags)
+	if err != nil {
+		fmt.Fprintln(os.Stderr, "load:", err)
+		os.Exit(2)
+	}
+	eng.timeoutS = *timeout
+	eng.dumpDir = *dump
+	if *dump != "" {
+		os.MkdirAll(*dump, 0755)
+	}
+	sp := newSpecs()
+	if err := sp.loadDir(*specDir); err != nil {
+		fmt.Fprintln(os.Stderr, "spec:", err)
+		os.Exit(2)
+	}
+	for _, cf := range strings.Split(*contracts, ",") {
+		if cf == "" {
+			continue
+		}
+		if err := sp.loadSpecFile(cf, "//@", false); err != nil {
+			fmt.Fprintln(os.Stderr, "contracts:", err)
+			os.Exit(2)
+		}
+	}
+	eng.specs = sp
+	if *info != "" {
+		printInfo(eng, regexp.MustCompile(*info))
+		return
+	}
+	rep := &Report{Property: *prop, LoadS: eng.loadS}
+	var re *regexp.Regexp
+	if *only != "" {
+		re = regexp.MustCompile(*only)
+	}
+	// functions under contract for this property
+	var keys []string
+	for k, c := range sp.Contracts {
+		if c.Kind != "func" || c.External {
+			continue
+		}
+		if !hasTag(c, *prop) {
+			continue
+		}
+		if re != nil && !re.MatchString(k) {
+			continue
+		}
+		if eng.fnByKey[k] == nil {
+			rep.Errors = append(rep.Errors, fmt.Sprintf("contract for unknown function %q (%s:%d)", k, c.Origin, c.Line))
+			continue
+		}
+		keys = append(keys, k)
+	}
+	sort.Strings(keys)
+	tmpdir, _ := os.MkdirTemp("", "govc")
+	defer os.RemoveAll(tmpdir)
+	var mu sync.Mutex
+	var wg sync.WaitGroup
+	sem := make(chan struct{}, *jobs)
+	scheduled := map[string]bool{}
+	var schedule func(k string)
+	schedule = func(k string) {
+		mu.Lock()
+		if scheduled[k] {
+			mu.Unlock()
+			return
+		}
+		scheduled[k] = true
+		mu.Unlock()
+		wg.Add(1)
+		go func() {
+			defer wg.Done()
+			sem <- struct{}{}
+			fr, obls, used := verifyOne(eng, k, *prop, tmpdir, *quant)
+			<-sem
+			mu.Lock()
+			rep.Functions = append(rep.Functions, fr)
+			rep.Obligations = append(rep.Obligations, obls...)
+			mu.Unlock()
+			// every repo function whose contract was relied on is verified in the same run
+			if re == nil {
+				for _, u := range used {
+					if c := sp.Contracts[u]; c != nil && !c.External && c.Kind == "func" && eng.fnByKey[u] != nil && !c.Trusted {
+						schedule(u)
+					}
+				}
+			}
+		}()
+	}
+	for _, k := range keys {
+		schedule(k)
+	}
+	wg.Wait()
+	sort.Slice(rep.Functions, func(i, j int) bool { return rep.Functions[i].Func < rep.Functions[j].Func })
+	sort.SliceStable(rep.Obligations, func(i, j int) bool { return rep.Obligations[i].Func < rep.Obligations[j].Func })
+	rep.WallS = time.Since(t0).Seconds()
+	data, _ := json.MarshalIndent(rep, "", " ")
+	if *out != "" {
+		os.WriteFile(*out, data, 0644)
+	} else {
+		os.Stdout.Write(data)
+	}
+	// summary on stderr
+	n, d := 0, 0
+	for _, o := range rep.Obligations {
+		if o.Kind == "cover.info" {
+			continue
+		}
+		n++
+		if o.Verdict == "discharged" {
+			d++
+		} else {
+			fmt.Fprintf(os.Stderr, "NOT DISCHARGED [%s] %s  (%s) %v\n", o.Verdict, o.ID, o.Clause, o.PerSolver)
+		}
+	}
+	for _, f := range rep.Functions {
+		for _, e := range f.SpecErrors {
+			fmt.Fprintf(os.Stderr, "SPEC ERROR %s: %s\n", f.Func, e)
+		}
+		for _, e := range f.Outside {
+			fmt.Fprintf(os.Stderr, "OUTSIDE SUBSET %s: %s\n", f.Func, e)
+		}
+		for _, e := range f.Uncontracted {
+			fmt.Fprintf(os.Stderr, "UNCONTRACTED %s: %s\n", f.Func, e)
+		}
+	}
+	for _, e := range rep.Errors {
+		fmt.Fprintf(os.Stderr, "ERROR %s\n", e)
+	}
+	fmt.Fprintf(os.Stderr, "%s: %d functions, %d/%d obligations discharged, load %.1fs wall %.1fs\n", *prop, len(rep.Functions), d, n, rep.LoadS, rep.WallS)
+}
+
+func verifyOne(eng *Engine, key, prop, tmpdir string, quant bool) (fr *FuncReport, obls []*Obligation, used []string) {
+	fn := eng.fnByKey[key]
+	fr = &FuncReport{Func: key}
+	defer func() {
+		if r := recover(); r != nil {
+			fr.Outside = append(fr.Outside, fmt.Sprintf("engine panic: %v", r))
+			ob := &Obligation{ID: prop + "/" + key + "/engine", Prop: prop, Func: key, Kind: "engine", Clause: fmt.Sprint(r), Expect: "unsat", Verdict: "engine-error"}
+			obls = []*Obligation{ob}
+		}
+	}()
+	vc := newFuncVC(eng, fn, key, prop)
+	vc.useQuantSlices = quant
+	fr.Pos = vc.posStr(fn.Pos())
+	t0 := time.Now()
+	vc.run()
+	fr.TranslateS = time.Since(t0).Seconds()
+	t1 := time.Now()
+	vc.solve(tmpdir)
+	fr.SolveS = time.Since(t1).Seconds()
+	fr.Outside = vc.outside
+	fr.Uncontracted = sortedKeysB(vc.uncontracted)
+	fr.Assumed = sortedKeysB(vc.assumedUsed)
+	fr.Notes = vc.notes
+	fr.SpecErrors = vc.specErrors
+	if vc.c != nil {
+		for k := range vc.c.Sites {
+			if !vc.sitesUsed[k] && !strings.HasPrefix(k, "return#") && k != "entry" {
+				fr.UnusedSites = append(fr.UnusedSites, k)
+			}
+		}
+	}
+	fr.NObl = len(vc.obls)
+	// vacuity: some return must be reachable
+	nret, reach := 0, 0
+	for _, o := range vc.obls {
+		if o.Kind == "cover.info" {
+			nret++
+			if o.Verdict != "unreachable" {
+				reach++
+			}
+		}
+	}
+	if nret > 0 && reach == 0 {
+		vc.obls = append(vc.obls, &Obligation{ID: prop + "/" + key + "/cover:some-return", Prop: prop, Func: key, Kind: "cover", Clause: "no return shown reachable (vacuous contract?)", Expect: "sat", Verdict: "failed"})
+	}
+	if len(vc.specErrors) > 0 || len(vc.outside) > 0 {
+		// a function that could not be translated faithfully is never reported as proved
+		ob := &Obligation{ID: prop + "/" + key + "/translation", Prop: prop, Func: key, Kind: "engine",
+			Clause: strings.Join(append(append([]string{}, vc.specErrors...), vc.outside...), "; "), Expect: "unsat", Verdict: "engine-error"}
+		vc.obls = append(vc.obls, ob)
+	}
+	return fr, vc.obls, sortedKeysB(vc.usedContracts)
+}
+
+func newFuncVC(eng *Engine, fn *ssa.Function, key, prop string) *FuncVC {
+	vc := &FuncVC{eng: eng, fn: fn, key: key, prop: prop, ss: newSorts()}
+	vc.c = eng.specs.Contracts[key]
+	vc.heapSorts = map[string]string{}
+	vc.edgePC = map[edge]Term{}
+	vc.sitesUsed = map[string]bool{}
+	vc.frameReported = map[string]bool{}
+	return vc
+}
+
+func printInfo(eng *Engine, re *regexp.Regexp) {
+	var keys []string
+	for k := range eng.fnByKey {
+		if re.MatchString(k) {
+			keys = append(keys, k)
+		}
+	}
+	sort.Strings(keys)
+	for _, k := range keys {
+		fn := eng.fnByKey[k]
+		if len(fn.Blocks) == 0 {
+			continue
+		}
+		vc := newFuncVC(eng, fn, k, "info")
+		vc.analyzeCFG()
+		var ps []string
+		for _, p := range fn.Params {
+			ps = append(ps, p.Name())
+		}
+		var fvs []string
+		for _, p := range fn.FreeVars {
+			fvs = append(fvs, p.Name())
+		}
+		fmt.Printf("func %s  (%s) params=%v freevars=%v\n", k, vc.posStr(fn.Pos()), ps, fvs)
+		var ls []*loopInfo
+		for _, li := range vc.loops {
+			ls = append(ls, li)
+		}
+		sort.Slice(ls, func(i, j int) bool { return ls[i].ord < ls[j].ord })
+		for _, li := range ls {
+			fmt.Printf("   loop %d at %s\n", li.ord, vc.posStr(li.pos))
+		}
+		type cs struct {
+			s   string
+			pos string
+		}
+		for _, b := range fn.Blocks {
+			for _, in := range b.Instrs {
+				if n, ok := vc.callOrd[in]; ok {
+					fmt.Printf("   call %s#%d at %s\n", vc.callKeyOf[in], n, vc.posStr(in.Pos()))
+				}
+				if r, ok := in.(*ssa.Return); ok {
+					fmt.Printf("   return#%d at %s\n", vc.retOrd[b], vc.posStr(r.Pos()))
+				}
+			}
+		}
+	}
 }
